@@ -42,7 +42,20 @@ def run(pid, tier, replay=None):
     for k in ("plu", "plu_singular", "ldl", "ldl_singular", "llt", "llt_not_pd"):
         if summ[k] == 0:
             raise Broken("vacuity: no %s case generated" % k)
-    files = sorted(glob.glob(sc.path("g-*.ndjson")))
+    # every fourth case again in the float and long double builds (same exact expectations; the badly scaled variants use
+    # 2^+-60 resp. 2^+-4000, beyond the range of the next narrower type)
+    for real in (4, 16):
+        exe_w = vlib.cc_build(sc.path("fact_h%d" % real), [os.path.join(vlib.HARNESS, "fact_h.c")] +
+                              vlib.repo_src("linalg.c", "linalg_plu.c", "linalg_ldl.c", "linalg_llt.c", "math.c", "a.c"), sc, real=real)
+        rw = vlib.run_harness([exe_w, out, sc.path("g%d" % real), "4", "4"], timeout=1800)
+        mw = re.search(r"^SUMMARY (\{.*\})$", rw.stdout or "", re.M)
+        if rw.returncode != 0 or not mw:
+            if rw.returncode in (97, 98, 99, -6, -11) or "Sanitizer" in (rw.stderr or ""):
+                ck.violation("crash", {"what": "sanitizer abort in the factorization routines (real width %d)" % real, "stderr": (rw.stderr or "")[-1500:]})
+                continue
+            raise Broken("harness (real width %d) failed rc=%s: %s" % (real, rw.returncode, (rw.stderr or "")[-1500:]))
+        summ["events"] += json.loads(mw.group(1))["events"]
+    files = sorted(glob.glob(sc.path("g*-*.ndjson")))
     nev, bad = vlib.validate_collect(os.path.join(SPECDIR, "FactorTrace.tla"), os.path.join(SPECDIR, "FactorTrace.cfg"), files, sc, timeout=3000)
     names = {1: "plu", 2: "plu-singular", 3: "ldl", 4: "ldl-singular", 5: "llt", 6: "llt-not-pd"}
     for f, idx, ev in bad:
